@@ -47,6 +47,11 @@ CLAIMED = {
         "One actor runs open-for-write/write/(close|abort|interrupted with-block) on the real _GitFile in a real directory while a protocol-abiding other locker may acquire/commit/abort before up to 2 of the actor's system calls and one system call may fail with EIO, all at symbolic positions: the actor never renames or removes a lock it does not own, owns the lock after a successful open, leaves complete old or complete new content visible to readers at every point, releases its lock on every ending, and a failed or aborted write leaves the old content. By assume/guarantee induction this gives mutual exclusion for any number of protocol-abiding writers within the bound. Two genuine defects found by this check were repaired (fix: 91eebc4, 8e3e18a). Callers of the protocol (index, refs, config writers) under fault injection are not covered by this check yet.",
         "Trusted: z3 (forking only), ksym, POSIX semantics of O_EXCL/rename/unlink as provided by the kernel on /dev/shm; other writers follow the protocol.",
     ),
+    "C08": (
+        "bounded symbolic exploration of two-actor schedules over the real refs/commit code (ksym + file-system interposition + greenlets): operation pair, who starts and the preemption positions are solver-forked variables; oracle = linearizability against the map model",
+        "Two actors with separate container objects on one real directory each run one of 16 ref operations (conditional/unconditional set, create, delete, pack_refs, reads) on the same ref from a loose, packed or loose-over-packed start, interleaved at file-system-call granularity (reads included) with up to 1 preemption (quick) / 2 preemptions (thorough) at symbolic positions: results and final refs equal one of the two sequential orders on the map model; an actor that hits a lock or an error has had no effect; no lock file is left. Two actors committing to one branch through the work-tree API under the same schedules: every commit reported successful is in the final history. Three genuine defects found by this check were repaired (3f9f559, da7c0b9, e5bb3a6); one is recorded as a known finding (pack_refs racing a delete).",
+        "Trusted: z3 (forking), ksym, greenlet scheduling at interposed calls, POSIX semantics of the kernel on /dev/shm; schedule indices are reproducible because PYTHONHASHSEED is fixed.",
+    ),
     "C09": (
         "bounded symbolic exploration of crash points over the real repository code (ksym + file-system interposition): crash index and per-file data-loss bits are solver-forked variables; the image is checked by dulwich's own reader",
         "For 13 repository-changing operations (loose object, conditional ref update/create/delete, pack_refs, symbolic ref, index write, config write, commit through the work-tree API, add_objects as a pack, pack_loose_objects, repack, gc with pruning) from a loose and a packed starting repository, and a crash immediately before any of the first 60 file-system calls at a symbolic index: the directory image reopens, every ref holds its old or new value and names a present object that re-hashes to its name, every previously reachable object is byte-identical, index and config parse. Same under the power-loss model with core.fsyncObjectFiles on, where each file written by the operation keeps only its last-fsynced content (symbolic per file). One genuine defect found by this check was repaired (fix: b3ae6a7).",
